@@ -163,4 +163,33 @@ theorem fixEmptyKVs_stringKeyed : ∀ (kvs : List (String × GoVal)), stringKeye
     simp [fixEmptyKVs, stringKeyedKVs, fixEmpty_stringKeyed v h.1, fixEmptyKVs_stringKeyed r h.2]
 end
 
+/-! ## `omitEmpty` leaves no nil slice behind -/
+
+mutual
+theorem omitEmpty_noNil (pats : List (List String)) : ∀ (v : GoVal) (p : TPath), noNil (omitEmpty pats v p) = true
+  | .map kvs, p => by simp only [omitEmpty, noNil]; exact omitKVs_noNil pats kvs p
+  | .seq xs, p => by simp only [omitEmpty, noNil]; exact omitList_noNil pats xs p
+  | .nilseq, _ => by simp [omitEmpty, noNil, noNilList]
+  | .imap _, _ => by simp [omitEmpty, noNil]
+  | .null, _ => by simp [omitEmpty, noNil]
+  | .bool _, _ => by simp [omitEmpty, noNil]
+  | .int _, _ => by simp [omitEmpty, noNil]
+  | .float _, _ => by simp [omitEmpty, noNil]
+  | .str _, _ => by simp [omitEmpty, noNil]
+theorem omitKVs_noNil (pats : List (List String)) : ∀ (kvs : List (String × GoVal)) (p : TPath), noNilKVs (omitKVs pats kvs p) = true
+  | [], _ => by simp [omitKVs, noNilKVs]
+  | (k, v) :: r, p => by
+    unfold omitKVs
+    split
+    · exact omitKVs_noNil pats r p
+    · simp [noNilKVs, omitEmpty_noNil pats v (p.next k), omitKVs_noNil pats r p]
+theorem omitList_noNil (pats : List (List String)) : ∀ (xs : List GoVal) (p : TPath), noNilList (omitList pats xs p) = true
+  | [], _ => by simp [omitList, noNilList]
+  | v :: r, p => by
+    unfold omitList
+    split
+    · exact omitList_noNil pats r p
+    · simp [noNilList, omitEmpty_noNil pats v (p.next "[]"), omitList_noNil pats r p]
+end
+
 end CV.C01
